@@ -285,12 +285,15 @@ def remap_blocks(chk, repo, rule):
                          ('_AssignDescriptor', 'descriptors')):
         f = repo.func(SCH, 'GroupAdditivityScheme.' + mname)
         loops = [n for n in ast.walk(f) if isinstance(n, ast.For)
-                 and src(n.iter) == 'list(%s.keys())' % dname]
+                 and src(n.iter).replace(' ', '') in (
+                     'list(%s.keys())' % dname, 'list(%s)' % dname,
+                     'tuple(%s.keys())' % dname, 'tuple(%s)' % dname,
+                     'sorted(%s.keys())' % dname, 'sorted(%s)' % dname)]
         ok = len(loops) == 1
         chk.ob(rule, ok, SCH, f, key='remap-loop:' + mname,
                what='one complete loop over a snapshot of the %s keys '
                     'applies the remaps' % dname,
-               found='%d loops over list(%s.keys())' % (len(loops), dname))
+               found='%d loops over a snapshot of %s' % (len(loops), dname))
         if not ok:
             continue
         lp = loops[0]
